@@ -719,6 +719,23 @@ func genC16(g *gctx) {
 	g.emit("close")
 }
 
+// genC06: the glue between the wire and the tx manager for LONG inventories: more than wire.MaxInvPerMsg (50000)
+// fresh transactions announced in one message are requested in several getdata messages, each txid exactly once.
+func genC06(g *gctx) {
+	r := g.r
+	g.emit(fmt.Sprintf("init verifyonly=0 tx=1 hh=%d", b2i(r.Chance(50))))
+	g.handshakeAndVerify(0)
+	n := []int{49999, 50000, 50001, 50003, 50000 + r.Intn(3000), 100001}[r.Intn(6)]
+	base := 1000000 + r.Intn(1000000)
+	g.emit(fmt.Sprintf("msg cmd=inv invgen=%d:%d w=4000", n, base))
+	if r.Chance(50) {
+		// announced again by the same peer at once: nothing is requested twice
+		g.emit(fmt.Sprintf("msg cmd=inv invgen=%d:%d w=4000", 1+r.Intn(300), base+r.Intn(n)))
+	}
+	g.emit(fmt.Sprintf("ping n=%d", 2000000+r.Intn(1000000)))
+	g.emit("close")
+}
+
 func (g *gctx) handshakeAndVerify(extraHeaders int) {
 	g.version()
 	g.verack()
@@ -1003,7 +1020,7 @@ func b2i(b bool) int {
 }
 
 func gen(seed uint64, scripts int, tier string, profile string) {
-	salt := map[string]uint64{"c13": 13, "c14": 14, "c15": 15, "real": 16, "c16": 17}[profile]
+	salt := map[string]uint64{"c13": 13, "c14": 14, "c15": 15, "real": 16, "c16": 17, "c06": 18}[profile]
 	r := hx.NewRng(seed*1000 + salt)
 	for i := 0; i < scripts; i++ {
 		g := &gctx{r: r, tier: tier}
@@ -1016,6 +1033,8 @@ func gen(seed uint64, scripts int, tier string, profile string) {
 			genReal(g)
 		case "c16":
 			genC16(g)
+		case "c06":
+			genC06(g)
 		default:
 			genC13(g)
 		}
